@@ -88,10 +88,19 @@ def monitor(cfg, op, o):
         _, c, a, b, adder, fees, na = op
         if c != OWNER and not pre["creation"]:
             out.append(("create-by-non-owner-while-disabled", f"{op} succeeded with public creation disabled"))
+        # the switch as the OWNER last set it (tracked over the history, not read back from the contract)
+        if c != OWNER and pre.get("creation_hist") is False:
+            out.append(("create-by-non-owner-after-owner-disabled",
+                        f"{op} succeeded although the owner's last successful setPairCreationEnabled was false (view says {pre['creation']})"))
         if pre["getpair"].get((a, b), 0) != 0 or pre["getpair"].get((b, a), 0) != 0:
             out.append(("create-over-existing-pair", f"{op} succeeded although getPair gave {pre['getpair'].get((a, b))}/{pre['getpair'].get((b, a))}"))
         if gp.get((a, b)) != na or gp.get((b, a)) != na:
             out.append(("created-pair-not-resolvable", f"{op}: getPair now gives {gp.get((a, b))}/{gp.get((b, a))}, created {na}"))
+    if k == "SetCreation" and o["ok"]:
+        if op[1] != OWNER:
+            out.append(("creation-switch-set-by-non-owner", f"{op} succeeded for a non-owner"))
+        elif bool(o["creation"]) != bool(op[2]):
+            out.append(("creation-switch-not-applied", f"{op} succeeded but getPairCreationEnabled reads {o['creation']}"))
     # ---- removal: removePair in EITHER token order unregisters the pair (it can no longer be looked up, listed,
     #      managed or used as a hop - "only registered pairs ..." presupposes that a removed pair is not registered)
     if k == "RemovePair" and o["ok"]:
@@ -215,6 +224,16 @@ def strip(o):
     return jsonable({k: v for k, v in o.items() if k != "pre"})
 
 
+def annotate(trace):
+    """ghost: the public-creation switch as the owner's successful calls left it"""
+    cur = bool(trace[0][1]["pre"]["creation"]) if trace else False
+    for op, o in trace:
+        o["pre"]["creation_hist"] = cur
+        if op[0] == "SetCreation" and o["ok"] and op[1] == OWNER:
+            cur = bool(op[2])
+    return trace
+
+
 def enable_swap_monitor(cfg, op, o):
     """setSwapEnabledByUser - the one way a NON-owner configures and resumes a pair - may only succeed on a pair that is in
     the ActiveNoSwaps (partial-active) state: a pair the owner paused, or an already active pair, must be refused"""
@@ -241,6 +260,7 @@ def explore(tier, seed, model_ok=True, focus=False, mon=None, tag="C14", scale=1
     for sd, cfg, trace in hist:
         ex.histories += 1
         ex.evaluations += len(trace)
+        annotate(trace)
         for idx, (op, o) in enumerate(trace):
             ex.count(op[0] + (":ok" if o["ok"] else ":err"))
             ex.count("ok" if o["ok"] else "err")
@@ -271,7 +291,7 @@ def explore(tier, seed, model_ok=True, focus=False, mon=None, tag="C14", scale=1
 
 def replay(data):
     rp = data["replay"]
-    trace = sr.replay_history(rp["cfg"], rp["ops"])
+    trace = annotate(sr.replay_history(rp["cfg"], rp["ops"]))
     fails = []
     for op, o in trace:
         for key, what in monitor(rp["cfg"], op, o):
